@@ -596,6 +596,15 @@ theorem le_extentR {rs : List Range} {r : Range} (h : r ∈ rs) : r.stop ≤ ext
     · omega
     · have := ih h; omega
 
+theorem exists_gt_of_extentR : ∀ (rs : List Range) (n : Nat), n < extentR rs → ∃ r ∈ rs, n < r.stop
+  | [], n, h => by simp [extentR] at h
+  | r :: rs, n, h => by
+    simp only [extentR] at h
+    by_cases hr : n < r.stop
+    · exact ⟨r, by simp, hr⟩
+    · obtain ⟨r', hr', hlt⟩ := exists_gt_of_extentR rs n (by omega)
+      exact ⟨r', by simp [hr'], hlt⟩
+
 theorem pairwise_ne {rs : List Range} (hp : rs.Pairwise Range.Disc) {a c : Range}
     (ha : a ∈ rs) (hc : c ∈ rs) (hne : a ≠ c) : Range.Disc a c := by
   induction rs with
